@@ -306,6 +306,8 @@ struct R {
     args: Option<Args>,
     /// chunks whose write call returned `Ok` (oracle bookkeeping)
     accepted: Vec<OChunk>,
+    /// tick of the last accepted tick marker (oracle bookkeeping)
+    prev_tick: Option<i32>,
 }
 
 fn pad4(d: &[u8]) -> Vec<u8> {
@@ -341,7 +343,7 @@ fn known_writer_panic(msg: &str) -> Option<&'static str> {
 
 impl R {
     fn new() -> R {
-        R { file: Shared::new(), writer: None, args: None, accepted: vec![] }
+        R { file: Shared::new(), writer: None, args: None, accepted: vec![], prev_tick: None }
     }
 
     fn write(&mut self, c: OChunk, o: &mut Oracle) -> String {
@@ -368,6 +370,36 @@ impl R {
                 });
                 // distribution of the size-encoding branch actually taken
                 let n = self.file.len() - before;
+                // the documented mechanisms, checked on the appended bytes: the tick marker is inline
+                // exactly when a previous tick exists, no key frame is flagged and the gap is 1..=31;
+                // the size is encoded in the shortest of the three forms
+                let appended = self.file.bytes()[before..].to_vec();
+                match &c {
+                    OChunk::Tick(t, kf) => {
+                        let inline = match self.prev_tick {
+                            Some(p) => !*kf && (*t as i64 - p as i64) <= 31,
+                            None => false,
+                        };
+                        if appended.len() != if inline { 1 } else { 5 } {
+                            o.fail("C15/tick-marker-form", format!("tick {} (key frame {}) after {:?}: {} marker bytes", t, kf, self.prev_tick, appended.len()));
+                        }
+                        self.prev_tick = Some(*t);
+                    }
+                    _ => {
+                        let s = (appended[0] & 0x1f) as usize;
+                        let (hdr, size) = if s < 30 {
+                            (1, s)
+                        } else if s == 30 {
+                            (2, appended.get(1).cloned().unwrap_or(0) as usize)
+                        } else {
+                            (3, appended.get(1).cloned().unwrap_or(0) as usize + 256 * appended.get(2).cloned().unwrap_or(0) as usize)
+                        };
+                        let canonical = if size < 30 { 1 } else if size <= 255 { 2 } else { 3 };
+                        if hdr + size != appended.len() || hdr != canonical {
+                            o.fail("C15/size-encoding-form", format!("{}: {} bytes appended, size field {} in a {}-byte header", c.text(), appended.len(), size, hdr));
+                        }
+                    }
+                }
                 if !matches!(c, OChunk::Tick(..)) {
                     o.count(if n < 1 + 30 { "size-inline" } else if n <= 2 + 255 { "size-one-byte" } else { "size-two-bytes" });
                 } else {
@@ -504,9 +536,12 @@ impl Runner for R {
                 match res {
                     Ok(Ok(w)) => {
                         self.writer = Some(w);
+                        let b = self.file.bytes();
+                        if b != doc_header(&nv, &mn, sha.as_deref(), crc, server, len, &ts, &map) {
+                            o.fail("C15/header-layout", format!("the {} bytes written by Writer::new are not the documented layout of these fields", b.len()));
+                        }
                         self.args = Some(Args { net_version: nv, map_name: mn, sha, crc, server, length: len, timestamp: ts, map });
                         o.count("new-ok");
-                        let b = self.file.bytes();
                         format!("ok {} {}", b.len(), fnv_bytes(FNV_OFFSET, &b))
                     }
                     Ok(Err(e)) => {
@@ -611,6 +646,34 @@ impl Runner for R {
                     _ => "bad-args".to_string(),
                 }
             }
+            ["mutall"] => {
+                if self.writer.is_none() {
+                    return "no-writer".to_string();
+                }
+                let f = self.file.bytes();
+                let mut h = FNV_OFFSET;
+                let mut fold = |b: Vec<u8>, what: String, o: &mut Oracle| {
+                    let text = match catch(|| read_text(&read_file(b))) {
+                        Ok(t) => t,
+                        Err(msg) => {
+                            // the writer produced the undamaged file: a reader panic on a damaged copy is reported
+                            o.fail("C15/reader-panics-on-damaged-file", format!("{}: {}", what, msg));
+                            "panic".to_string()
+                        }
+                    };
+                    h = fnv_byte(fnv_bytes(h, text.as_bytes()), 10);
+                };
+                for i in 0..f.len() {
+                    for x in [0x01u8, 0x80, 0xff] {
+                        let mut b = f.clone();
+                        b[i] ^= x;
+                        fold(b, format!("byte {} xor {:#x}", i, x), o);
+                    }
+                    fold(f[..i].to_vec(), format!("truncated to {} bytes", i), o);
+                }
+                o.add("damaged_files_swept", 4 * f.len() as u64);
+                format!("h {}", h)
+            }
             ["readtrunc", n] => {
                 if self.writer.is_none() {
                     return "no-writer".to_string();
@@ -637,6 +700,34 @@ impl Runner for R {
             _ => "bad-op".to_string(),
         }
     }
+}
+
+/// the file start `doc/demo.md` prescribes for these header fields (version 5, or 6 with the
+/// DDNet SHA-256 extension block): written independently of the crate's `binrw` declarations
+pub fn doc_header(nv: &[u8], mn: &[u8], sha: Option<&[u8]>, crc: u32, server: bool, length: i32, ts: &[u8], map: &[u8]) -> Vec<u8> {
+    fn padded(s: &[u8], n: usize) -> Vec<u8> {
+        let mut v = s.to_vec();
+        v.resize(n, 0);
+        v
+    }
+    let mut f: Vec<u8> = b"TWDEMO\0".to_vec();
+    f.push(if sha.is_some() { 6 } else { 5 });
+    f.extend(padded(nv, 64));
+    f.extend(padded(mn, 64));
+    let ms = map.len() as u32;
+    f.extend([(ms >> 24) as u8, (ms >> 16) as u8, (ms >> 8) as u8, ms as u8]);
+    f.extend([(crc >> 24) as u8, (crc >> 16) as u8, (crc >> 8) as u8, crc as u8]);
+    f.extend(if server { b"server\0\0" } else { b"client\0\0" });
+    let l = length as u32;
+    f.extend([(l >> 24) as u8, (l >> 16) as u8, (l >> 8) as u8, l as u8]);
+    f.extend(padded(ts, 20));
+    f.extend(vec![0u8; 4 + 256]);
+    if let Some(s) = sha {
+        f.extend([0x6b, 0xe6, 0xda, 0x4a, 0xce, 0xbd, 0x38, 0x0c, 0x9b, 0x5b, 0x12, 0x89, 0xc8, 0x42, 0xd7, 0x80]);
+        f.extend(s);
+    }
+    f.extend(map);
+    f
 }
 
 /// the file of case `x` of the exhaustive chunk-header sweep (see `sweepFile` in `Drv/Demo.lean`)
@@ -919,6 +1010,28 @@ impl<'a> G<'a> {
         }
     }
 
+    /// a short recording with every kind of chunk, then every single-byte corruption and truncation
+    fn small_session_mutall(&mut self, near_max: bool) {
+        let sha = if self.rng.chance(1, 2) { "none".to_string() } else { format!("x32:{}", self.rng.below(1000)) };
+        let map = if self.rng.chance(1, 2) { "-".to_string() } else { "01020304".to_string() };
+        self.line(format!("new 302e36 6d31 {} 7 c 9 3230 {}", sha, map));
+        // half of them close to i32::MAX: one flipped bit makes the following inline delta overflow
+        let t0 = if near_max { 0x7fff_ff7f } else { self.rng.range(0, 1000) };
+        self.line(format!("t 1 {}", t0));
+        let p = self.small_payload();
+        self.line(format!("s {}", p));
+        let m = self.message();
+        self.line(format!("m {}", m));
+        let g = self.rng.range(1, 31);
+        self.line(format!("t 0 {}", t0 + g));
+        let p = data_with_compressed_len(&mut self.rng, 31);
+        self.line(format!("d {}", p));
+        self.line(format!("t 0 {}", t0 + 100));
+        let m = self.message();
+        self.line(format!("m {}", m));
+        self.line("mutall".to_string());
+    }
+
     fn malformed_of_session(&mut self, n: usize) {
         for _ in 0..n {
             match self.rng.below(3) {
@@ -993,6 +1106,9 @@ impl<'a> G<'a> {
             self.session(n, false);
             let m = self.rng.below(6) as usize;
             self.malformed_of_session(m);
+            if i % (if thorough { 10 } else { 50 }) == 3 {
+                self.small_session_mutall(i % 20 == 3 || !thorough && i % 100 == 3);
+            }
             if i < sweeps.len() {
                 let l = sweeps[i].clone();
                 self.line(l);
